@@ -250,6 +250,39 @@ def r11_8(ctx, rep, only=None):
                 else:
                     rep.ok("R11.8", "Config::%s: field %s" % (b["key"].split("::")[-1], fn), "<= %s" % (", ".join(src) or "default"), where=where, nontrivial=False)
     rep.floor("R11.8", "Config constructors", n_ctor, 1)
+    # (c) a configuration derived from another one (normalising the directory, filling defaults, ...) carries EVERY setting over: in any
+    #     function that receives a Config and builds a Config (directly or through a constructor it calls), each field of the new value
+    #     derives from the same field of the one received
+    n_deriv = 0
+    for b in ctx.facts.doc["bodies"]:
+        if b["key"].startswith(("testing::", "<testing::")) or b.get("kind") == "Closure":
+            continue
+        tys = [l.get("ty", "") for l in b.get("locals", [])[1:1 + b.get("argc", 0)]]
+        cfg_params = [i + 1 for i, t_ in enumerate(tys) if re.search(r"(^|[^\w])(\w+::)*config::Config\b", t_)]
+        if not cfg_params or (b.get("impl_trait") or "").endswith("clone::Clone"):
+            continue
+        gk = ctx.graph(b["key"])
+        Pk = ctx.product(b["key"])
+        for n_ in sorted(Pk.live):
+            for si, st in enumerate(gk.stmts(n_)):
+                if not (st["k"] == "assign" and st["rv"]["k"] == "agg" and st["rv"].get("adt") == "config::Config"):
+                    continue
+                n_deriv += 1
+                lost = []
+                for fn, fo in zip(st["rv"]["fnames"], st["rv"]["fields"]):
+                    if only and fn not in only:
+                        continue
+                    e = strip_ids(gk.prov_operand(gk.inst(n_), fo))
+                    from_same = contains(e, lambda x: is_field(x, fn) and contains(x, lambda y: isinstance(y, tuple) and len(y) == 2 and y[0] == "arg" and y[1] in cfg_params))
+                    if not from_same:
+                        lost.append(fn)
+                where = gk.where(n_, si)
+                if lost:
+                    rep.violation("R11.8", "%s|config-rebuilt-without:%s" % (short_key(b["key"]).split("::")[-1], ",".join(lost)), short_key(b["key"]),
+                                  "a Config is rebuilt from another Config but the setting(s) %s are not carried over: the store runs with the "
+                                  "default instead of what the user configured (e.g. tail truncation comes back on)" % lost, where=where)
+                else:
+                    rep.ok("R11.8", "%s: derived Config" % short_key(b["key"]).split("::")[-1], "every field carried over", where=where)
 
 
 def run(ctx, rep):
